@@ -4,6 +4,10 @@
    extracted.  names = the members (any order: the code sorts them), order / pieces = the
    FileContent blocks in archive order (member index, data).
    Rows: [status]; then `path 256 content` per regular file under the output directory, sorted. *)
+From MLA Require Import Limit.
+From MLAGen Require Src.
+(* executable entry points: the production value of BINCODE_MAX_DESERIALIZE (the same in both flavours), file-local *)
+#[local] Instance RUN_LIMIT : Limit := MLAGen.Src.BINCODE_MAX_DESERIALIZE_prod.
 From MLA Require Import Base Stream Inst Path Cli Pool Run.
 Open Scope N_scope.
 
